@@ -67,6 +67,33 @@ pub fn step(b: Builder, op: u8, g: &mut Ghost) -> Option<Builder> {
             g.push(y);
             ok(b.write_payloads([x, y]))
         }
+        9 => {
+            // a batch handed over as a lazy iterator whose size_hint lower bound is 0 (filter): the items that pass
+            // the filter must be written, in order, exactly like single writes
+            let x: u8 = kani::any();
+            let y: u8 = kani::any();
+            let z: u8 = kani::any();
+            if x != z {
+                g.push(x);
+            }
+            if y != z {
+                g.push(y);
+            }
+            ok(b.write_payloads([x, y].into_iter().filter(move |v| *v != z)))
+        }
+        10 => {
+            // an empty batch writes nothing (but, as the first write, still emits the fixed part at build)
+            ok(b.write_payloads(core::iter::empty::<u8>()))
+        }
+        11 => {
+            // a batch of references (blanket impl for &T), taken from a slice iterator
+            let v: [u16; 2] = kani::any();
+            g.push((v[0] >> 8) as u8);
+            g.push((v[0] & 0xFF) as u8);
+            g.push((v[1] >> 8) as u8);
+            g.push((v[1] & 0xFF) as u8);
+            ok(b.write_payloads(v.iter()))
+        }
         7 => {
             // set_length with a definite value (Into<Option<u16>> for u16)
             let l: u16 = kani::any();
@@ -197,5 +224,13 @@ macro_rules! hist {
         }
     };
 }
+
+// hand-written: batches through lazy / empty / by-reference iterators (C10 "written one at a time or as a batch")
+hist!(h1_batchlazy, new, [9]);
+hist!(h2_u8_batchlazy, new, [2, 9]);
+hist!(h2_batchempty_u8, new, [10, 2]);
+hist!(h2_u8_batchempty, new, [2, 10]);
+hist!(h2_batchref_u8, new, [11, 2]);
+hist!(hv4_batchlazy, ipv4, [9]);
 
 include!("c09_gen.rs");
